@@ -97,7 +97,9 @@ func libSign(mt string, ch *pki.Chain, tag string, rich bool, scheme signature.S
 	req := sims.BaseRequest(mt, signer, scheme)
 	req.Payload.Content = []byte(fmt.Sprintf(`{"targetArtifact":{"digest":"sha256:%s","size":%d}}`, strings.Repeat(tag, 16), len(tag)))
 	if rich {
-		req.Expiry = sims.SignTime.AddDate(2, 0, 0)
+		// times written by a signer outside UTC (same instants)
+		req.SigningTime = sims.SignTime.In(time.FixedZone("", 2*3600+30*60))
+		req.Expiry = sims.SignTime.AddDate(2, 0, 0).In(time.FixedZone("", -7*3600))
 		req.SigningAgent = "c01/agent"
 		req.ExtendedSignedAttributes = []signature.Attribute{{Key: "io.example.crit", Critical: true, Value: "v"}, {Key: "io.example.plain", Value: "w"}}
 	}
